@@ -97,15 +97,14 @@ Section Direct.
   Qed.
 
   Lemma direct_wire_shape_lemma :
-    d_late s = false ->
     exists ts tl, d_wire s = whole fr ts ++ tl /\ NoDup ts /\
       (tl = [] \/ exists t c, ~ In t ts /\ 0 < c < length (fr t) /\ tl = tag t (firstn c (fr t)) /\
          (pc_of (d_thr s) t = Some (PWriting c) \/
           (d_torn s = true /\ exists e, result_of (d_thr s) t = Some (c, e) /\ (d_broken s = false -> e <> None)))).
   Proof.
-    intros Hl. rewrite (di_wire s I).
+    rewrite (di_wire s I).
     destruct (shape_of_hist fr (d_hist s) (di_nodup s I) (di_bound s I)) as [ts [tl [H1 [H2 H3]]]].
-    { intros h0 x Hh. exact (di_shape_a s I Hl h0 x Hh). }
+    { intros h0 x Hh. exact (di_shape_a s I h0 x Hh). }
     exists ts, tl. split; [exact H1|]. split; [exact H2|]. destruct H3 as [H3|[t [c [Hn [Hc [Htl [h0 Hh]]]]]]]; [left; exact H3|].
     right. exists t, c. repeat split; auto; try lia.
     assert (Hin : In (t, c) (d_hist s)) by (rewrite Hh; apply in_or_app; simpl; auto).
@@ -229,4 +228,121 @@ Proof.
   - destruct (dstep has_to s l) as [s1|] eqn:E; [|discriminate].
     destruct (dstep_after_close _ _ _ _ E Hc) as [Hc1 Hw1]. destruct (IH _ _ H Hc1) as [Hc2 Hw2].
     split; [exact Hc2|congruence].
+Qed.
+
+(* ---- a context that ended while the request was still at the select ---- *)
+
+Definition d_cancelled_early (t : nat) (s : dstate) : Prop :=
+  (exists e, ctx_err (d_ctx s) t = Some e) /\
+  (pc_of (d_thr s) t = Some PSelect \/ exists e, result_of (d_thr s) t = Some (0, Some e)).
+
+Lemma d_ctx_step has_to t s l s' e :
+  dstep has_to s l = Some s' -> ctx_err (d_ctx s) t = Some e -> ctx_err (d_ctx s') t = Some e.
+Proof.
+  intros H Hc. destruct s as [th cx sem w q clg can cc h tn lt br]. simpl in *.
+  destruct l; cbn [dstep] in H; try (destruct (after_return th clg t0) as [[th' clg']|]; [|discriminate]);
+    break_match H; inversion H; subst; simpl; auto using ctx_err_ctx_end.
+Qed.
+
+Lemma d_cancelled_early_step has_to t s l s' :
+  dstep has_to s l = Some s' -> d_cancelled_early t s -> d_cancelled_early t s'.
+Proof.
+  intros H [[e0 Hc] Hp]. split; [exists e0; eapply d_ctx_step; eauto|].
+  destruct Hp as [Hp|[e1 Hp]]; [|right; exists e1; eapply dstep_result_stable; eauto].
+  destruct s as [th cx sem w q clg can cc h tn lt br]. simpl in *.
+  pose proof (pc_of_lt _ _ _ Hp) as Hlt.
+  assert (Hother : forall t0 p0 p1, pc_of th t0 = Some p0 -> p0 <> PSelect -> pc_of (set_pc th t0 p1) t = Some PSelect).
+  { intros t0 p0 p1 H0 Hne. rewrite pc_of_set_other; [exact Hp|]. intros ->. congruence. }
+  assert (Hsel : forall t0 p1, pc_of th t0 = Some PSelect ->
+            (exists e, result_of_pc p1 = Some (0, Some e)) \/ t0 <> t ->
+            pc_of (set_pc th t0 p1) t = Some PSelect \/ exists e, result_of (set_pc th t0 p1) t = Some (0, Some e)).
+  { intros t0 p1 H0 Hor. destruct (Nat.eq_dec t0 t) as [->|Hne].
+    - right. destruct Hor as [[e He]|Hx]; [|congruence]. exists e. rewrite result_of_set_same by assumption. exact He.
+    - left. rewrite pc_of_set_other by assumption. exact Hp. }
+  destruct l; cbn [dstep] in H.
+  - destruct clg; [discriminate|]. inversion H; subst; simpl. left. rewrite pc_of_app_old by assumption. exact Hp.
+  - destruct (is_ctx_err e); [|discriminate]. inversion H; subst; simpl. auto.
+  - break_match H; inversion H; subst; simpl. apply Hsel; [assumption|]. left. simpl. eauto.
+  - break_match H; inversion H; subst; simpl. apply Hsel; [assumption|]. left. simpl. eauto.
+  - (* DAcquire: the check of ctx.Err() after the semaphore has been acquired *)
+    destruct (pc_of th t0) as [[| |c| |r| |r1|r2|r3]|] eqn:Hpc; try discriminate. destruct sem; [discriminate|].
+    destruct (ctx_err cx t0) as [e|] eqn:Hct.
+    + inversion H; subst; simpl. apply Hsel; [assumption|]. left. simpl. eauto.
+    + assert (t0 <> t) by (intros ->; congruence).
+      destruct lt; inversion H; subst; simpl; (apply Hsel; [assumption|right; assumption]).
+  - break_match H; inversion H; subst; simpl; left; (eapply Hother; [eassumption|discriminate]).
+  - break_match H; inversion H; subst; simpl; left; (eapply Hother; [eassumption|discriminate]).
+  - destruct (pc_of th t0) as [[| |c| |r| |r1|r2|r3]|] eqn:Hpc; try discriminate. inversion H; subst; simpl.
+    left. eapply Hother; [eassumption|discriminate].
+  - destruct (after_return th clg t0) as [[th' clg']|] eqn:E; [|discriminate]. inversion H; subst; simpl.
+    unfold after_return in E. break_match E; inversion E; subst; left; (eapply Hother; [eassumption|discriminate]).
+  - break_match H; inversion H; subst; simpl; left; (eapply Hother; [eassumption|discriminate]).
+  - break_match H; inversion H; subst; simpl; left; (eapply Hother; [eassumption|discriminate]).
+  - inversion H; subst; simpl. left. rewrite pc_of_app_old by assumption. exact Hp.
+  - inversion H; subst; simpl. auto.
+Qed.
+
+Lemma d_cancelled_early_run has_to t ls : forall s s',
+  drun has_to s ls = Some s' -> d_cancelled_early t s -> d_cancelled_early t s'.
+Proof.
+  unfold drun. induction ls as [|l ls IH]; intros s s' H Hc; simpl in H.
+  - inversion H; subst. exact Hc.
+  - destruct (dstep has_to s l) as [s1|] eqn:E; [|discriminate]. eapply IH; [exact H|].
+    eapply d_cancelled_early_step; eauto.
+Qed.
+
+(* if the context of a request ends while the request is still at the select, none of its bytes is ever written,
+   and whatever it is told is (0, some error) *)
+Lemma direct_ctx_done_lemma has_to ls1 ls2 s1 s t e :
+  drun has_to d_init ls1 = Some s1 -> pc_of (d_thr s1) t = Some PSelect ->
+  drun has_to s1 (DCtxDone t e :: ls2) = Some s ->
+  bytes_of t (d_wire s) = [] /\ forall r, result_of (d_thr s) t = Some r -> fst r = 0 /\ snd r <> None.
+Proof.
+  intros H1 Hp H2.
+  assert (Hrun : drun has_to d_init (ls1 ++ DCtxDone t e :: ls2) = Some s).
+  { unfold drun in *. rewrite lts_run_app, H1. exact H2. }
+  pose proof (dinv_reachable _ _ _ Hrun) as I.
+  unfold drun in H2. simpl in H2. destruct (dstep has_to s1 (DCtxDone t e)) as [s2|] eqn:E; [|discriminate].
+  assert (Hc2 : d_cancelled_early t s2).
+  { destruct s1 as [th cx sem w q clg can cc h tn lt br]. cbn [dstep] in E. destruct (is_ctx_err e); [|discriminate].
+    inversion E; subst. split; simpl; [apply ctx_err_ctx_end_same|]. left. exact Hp. }
+  destruct (d_cancelled_early_run has_to t ls2 s2 s H2 Hc2) as [_ Hfin]. destruct Hfin as [Hsel|[e1 Hr]].
+  - split.
+    + rewrite (di_wire s I). apply bytes_of_pieces_notin. eapply not_started_notin; eauto.
+    + intros r Hr. unfold result_of in Hr. rewrite Hsel in Hr. discriminate.
+  - split.
+    + rewrite (direct_count_exact_lemma has_to _ s Hrun t 0 (Some e1) Hr). reflexivity.
+    + intros r Hr'. rewrite Hr in Hr'. inversion Hr'; subst. simpl. split; [reflexivity|discriminate].
+Qed.
+
+(* ---- after a torn Write nothing more is written ---- *)
+
+Lemma dstep_after_torn has_to s l s' :
+  dinv2 s -> d_failed s <> None -> dstep has_to s l = Some s' -> d_failed s' <> None /\ d_wire s' = d_wire s.
+Proof.
+  intros I2 Hf H. destruct s as [th cx sem w q clg can cc h tn lt br]. simpl in Hf.
+  assert (Hnc : forall t p, pc_of th t = Some p -> critical p = true -> False).
+  { intros t p Hp Hc. apply Hf. exact (d2_hold _ I2 t p Hp Hc). }
+  destruct l; cbn [dstep] in H; try (destruct (after_return th clg t) as [[th' clg']|]; [|discriminate]);
+    try (destruct (pc_of th t) as [[| |c| |r| |r1|r2|r3]|] eqn:Hpc; try discriminate;
+         try (exfalso; eapply Hnc; [exact Hpc|reflexivity]));
+    break_match H; inversion H; subst; simpl; auto.
+Qed.
+
+Lemma direct_after_torn_run has_to ls : forall s s',
+  dall s -> d_failed s <> None -> drun has_to s ls = Some s' -> d_wire s' = d_wire s.
+Proof.
+  unfold drun. induction ls as [|l ls IH]; intros s s' [I I2] Hf H; simpl in H.
+  - inversion H; subst. reflexivity.
+  - destruct (dstep has_to s l) as [s1|] eqn:E; [|discriminate].
+    destruct (dstep_after_torn _ _ _ _ I2 Hf E) as [Hf1 Hw1].
+    rewrite <- Hw1. apply IH; [|exact Hf1|exact H].
+    split; [eapply dinv_step; eauto|eapply dinv2_step; eauto].
+Qed.
+
+Lemma direct_nothing_after_partial_lemma has_to ls1 ls2 s1 s2 :
+  drun has_to d_init ls1 = Some s1 -> d_torn s1 = true -> drun has_to s1 ls2 = Some s2 -> d_wire s2 = d_wire s1.
+Proof.
+  intros H1 Ht H2. pose proof (dall_reachable _ _ _ H1) as A.
+  eapply direct_after_torn_run; eauto. exact (d2_torn _ (proj2 A) Ht).
 Qed.
